@@ -290,6 +290,9 @@ pub enum Shape {
     Enum2,
     Enum3A,
     Enum3B,
+    /// the tested variant next to a variant that carries a String (so that the enum gets
+    /// generated clone / drop / eq helpers even when the tested payload is plain data)
+    EnumStr,
     GenEnum,
     Opt,
     ResOk,
@@ -301,7 +304,7 @@ pub enum Shape {
     AnonPerm,
 }
 
-pub const ALL_SHAPES: [Shape; 14] = [
+pub const ALL_SHAPES: [Shape; 15] = [
     Shape::Named,
     Shape::Generic,
     Shape::GenericRev,
@@ -310,6 +313,7 @@ pub const ALL_SHAPES: [Shape; 14] = [
     Shape::Enum2,
     Shape::Enum3A,
     Shape::Enum3B,
+    Shape::EnumStr,
     Shape::GenEnum,
     Shape::Opt,
     Shape::ResOk,
@@ -329,6 +333,7 @@ impl Shape {
             Shape::Enum2 => "enum2",
             Shape::Enum3A => "enum3-first",
             Shape::Enum3B => "enum3-last",
+            Shape::EnumStr => "enum-next-to-string-variant",
             Shape::GenEnum => "generic-enum",
             Shape::Opt => "option",
             Shape::ResOk => "result-ok",
@@ -500,6 +505,24 @@ impl TypeDesc {
                         rec_payload: None,
                         order: ident,
                         others: vec![Other { variant: "N".into(), args: vec![] }],
+                    },
+                    false,
+                )
+            }
+            Shape::EnumStr => {
+                enums.push(EnumDecl {
+                    name: "ES".into(),
+                    tparams: vec![],
+                    variants: vec![("S".into(), vec!["String".into()]), ("A".into(), tys.clone()), ("N".into(), vec![])],
+                });
+                (
+                    Ty::Named("ES".into(), vec![]),
+                    Access::Variant {
+                        path: "ES".into(),
+                        variant: "A".into(),
+                        rec_payload: None,
+                        order: ident,
+                        others: vec![Other { variant: "S".into(), args: vec![E::Str("other".into())] }, Other { variant: "N".into(), args: vec![] }],
                     },
                     false,
                 )
